@@ -11,7 +11,7 @@
 (* Input [a, ep, spec, ev, ename, self, tags, lt, members, payload, exit, N,      *)
 (*        limit, stream]; the families (ep):                                      *)
 (*  "filter"   handler `spec=script` (spec = sequence of items [t, n]: event type *)
-(*             or "*", n = 0 no name / 1, 2 a user-event or query name) and an    *)
+(*             or "*", n = 0 no name / 1..5 a user-event or query name) and an    *)
 (*             event ev = [t, n]; observed: how often the script ran              *)
 (*  "env"      event ev (name `ename`, Lamport time class lt) handled by a node   *)
 (*             named `self` with `tags` (pairs <<name, value>>); observed: the    *)
@@ -120,7 +120,19 @@ Specs == {<<>>} \cup { <<It(t, 0)>> : t \in Types \cup {"*", "bogus"} }
                 <<It("user", 1), It("user", 2)>>,
                 <<It("user", 0), It("user", 1)>>, <<It("*", 0), It("user", 0)>> }      \* the last two overlap
 Events == { It(t, 0) : t \in MemberTypes } \cup { It(t, n) : t \in {"user", "query"}, n \in 0..2 }
+\* specs listing several names of one kind where one name is a proper prefix of another (name ids: 1 "deploy",
+\* 3 "d", 4 "de", 5 "deploy-prod"; names are matched by EQUALITY), both orders, exact duplicates, and mixed with
+\* "*", a bare kind and member kinds; events carrying each of those names
+PNames == {1, 3, 4, 5}
+PrefixSpecs ==
+  UNION { { <<It(k, p), It(k, q)>> : p \in PNames, q \in PNames }                      \* incl. p = q: exact duplicates
+          \cup { <<It("*", 0), It(k, 4)>>, <<It(k, 5), It(k, 0)>>, <<It(k, 0), It(k, 3)>>,
+                 <<It("member-join", 0), It(k, 3), It(k, 4)>>, <<It(k, 5), It("member-leave", 0), It(k, 1)>>,
+                 <<It(k, 3), It(k, 4), It(k, 1)>>, <<It(k, 1), It(k, 4), It(k, 3)>> } : k \in {"user", "query"} }
+  \cup { <<It("user", 3), It("query", 4)>>, <<It("query", 1), It("user", 5)>>, <<It("user", 4), It("query", 4)>> }
+PrefixEvents == { It(t, n) : t \in {"user", "query"}, n \in {0} \cup PNames } \cup { It("member-join", 0) }
 FilterIn == { Rec("filter", s, e, <<>>, <<1>>, <<>>, 0, <<>>, <<>>, 0, 0, 0, "-") : s \in Specs, e \in Events }
+            \cup { Rec("filter", s, e, <<>>, <<1>>, <<>>, 0, <<>>, <<>>, 0, 0, 0, "-") : s \in PrefixSpecs, e \in PrefixEvents }
 
 TagMaps == { <<>>, << <<ROLE, <<1>>>> >>, << <<ROLE, <<>>>> >>, << <<<<1>>, <<1>>>> >>,
              << <<<<1, 10, 1>>, <<1, NL, 1>>>> >>, << <<<<1, EQ, 12>>, <<EQ, 1>>>> >>,
